@@ -93,6 +93,39 @@ def gen_seq(tier, seed):
     return cases
 
 
+def gen_whole_bounds(tier, seed):
+    """decimal64 range bounds WITHOUT a point, through parseChildRanges (the literal -> Number conversion of a range
+    bound): whole numbers whose value scaled by 10^fd lies next to 2^63, next to every multiple of 2^64 the literal can
+    reach, and far beyond; every fraction-digits 1..18; alone, as lower and as upper bound"""
+    rnd = random.Random(seed ^ 0xB0D)
+    cases = []
+    for fd in range(1, 19):
+        p = 10 ** fd
+        parent = "%d:%d:1~%d:%d:0" % (P63, fd, P63 - 1, fd)
+        bs = {0, 1, 9, 10, 18, 19, 20, 184, 185, 1844, 1845, 18446, 18447, P63 - 1, P63, P63 + 1, P64 - 1, P64, P63 // 10, P64 // 10}
+        for q in (P63 // p, P64 // p):
+            bs.update([q - 1, q, q + 1, q + 2])
+        for k in (2, 3, 5, 7, 10, 100, 12345):
+            q = k * P64 // p
+            bs.update([q, q + 1])
+        for j in range(0, 20):
+            bs.update([10 ** j, 2 * 10 ** j, 184 * 10 ** j // 100, 185 * 10 ** j // 100])
+        for _ in range(6 if tier == "quick" else 60):
+            bs.add(rnd.randrange(P63))
+            bs.add(rnd.randrange(P64 // p + 2) + P63 // p)
+        for b in sorted(x for x in bs if 0 <= x <= P64):
+            for sb in (str(b), "-" + str(b)):
+                cases.append("ranges %s %s 1 %d" % (parent, hexs(sb), fd))
+                if b < 0 or sb.startswith("-"):
+                    cases.append("ranges %s %s 1 %d" % (parent, hexs(sb + "..0"), fd))
+                    cases.append("ranges %s %s 1 %d" % (parent, hexs(sb + "..max"), fd))
+                else:
+                    cases.append("ranges %s %s 1 %d" % (parent, hexs("-1.." + sb), fd))
+                    cases.append("ranges %s %s 1 %d" % (parent, hexs("min.." + sb), fd))
+                    cases.append("ranges %s %s 1 %d" % (parent, hexs("0.5.." + sb), fd))
+    return cases
+
+
 def gen(tier, seed):
     rnd = random.Random(seed)
     mags = magnitudes()
@@ -130,6 +163,7 @@ def gen(tier, seed):
         for fd in (0, 1, 2, 3, 17, 18, 19, 255):
             cases.append("parsedec %s %d" % (hexs(s), fd))
     cases += gen_seq(tier, seed)
+    cases += gen_whole_bounds(tier, seed)
     # the order in which a process meets the cases is random (fixed by the seed): nothing may be carried from one
     # call to the next
     rnd.shuffle(cases)
@@ -144,6 +178,8 @@ def nontrivial(c):
         return t[1] != "-"
     if t[0] == "parsedecseq":
         return len(t) > 3
+    if t[0] == "ranges":
+        return True
     return t[1] != "0"
 
 
@@ -163,7 +199,10 @@ def run(res, tier, seed, proof):
                     "streams (boundaries around 2^63/2^64, signs, blanks, leading zeros, 17..512 fraction digits, malformed) for "
                     "ParseInt/ParseDecimal/asRangeInt; histories of 2-6 ParseDecimal calls in one process (parsedecseq), exhaustively the "
                     "pairs (text, precision) whose concatenations text+precision coincide for 23 literals x 26 precisions in both orders, "
-                    "and random histories over a pool where such pairs and repeated texts at other precisions occur; all cases are fed "
+                    "and random histories over a pool where such pairs and repeated texts at other precisions occur; decimal64 range bounds written without a point through "
+                    "parseChildRanges at every fraction-digits 1..18: whole numbers whose scaled value lies next to 2^63, next to "
+                    "multiples of 2^64 (18/19/20, 184/185, 1844/1845, ..., k*2^64/10^fd), powers of ten, +-2^63, 2^64, alone and as "
+                    "lower/upper bound; all cases are fed "
                     "to the processes in a seeded random order; non-trivial = operands differ / literal non-empty / magnitude non-zero "
                     "/ history of at least two calls",
                mismatches=mism, skipped_unmodelled=skipped, distribution=dict(commands=kinds, impl_outcomes=outs),
